@@ -241,8 +241,17 @@ def cases_for(P, k, thorough):
                 yield case("graph", prof, P, steps, runs, map={"pos": pos, "clone": clone})
 
 
-def _size(case):
-    return sum(len(s[1]) if s[0] in ("inputs", "outputs") else 1 for s in case["steps"]) + len(case.get("ctor") or [])
+def _size(case, kinds=("inputs", "outputs")):
+    return sum(len(s[1]) if s[0] in ("inputs", "outputs") else 1 for s in case["steps"] if s[0] in kinds or s[0] not in ("inputs", "outputs")) \
+        + len(case.get("ctor") or [])
+
+
+def _keep(lst, item, n=2):
+    """Keep the n smallest witnesses by input-side size and the n smallest by output-side size."""
+    lst.append(item)
+    a = sorted(lst, key=lambda t: (t[0], t[1], t[2]))[:n]
+    b = sorted(lst, key=lambda t: (t[1], t[0], t[2]))[:n]
+    lst[:] = a + [x for x in b if not any(x is y for y in a)]
 
 
 def work(task):
@@ -252,19 +261,74 @@ def work(task):
         seen = set()
         for c in cases_for(P, k, thorough):
             mism, nexec = R.run_case(c)
-            tag = c["kind"] + ("-mapped" if c.get("map") else "")
+            tag = c["kind"] + ("-mapped" if c.get("map") else "") + ("" if c["runs"] else "-attributes-only")
             counts[tag] = counts.get(tag, 0) + 1
             counts["executions"] = counts.get("executions", 0) + nexec
             for klass, summary in mism:
                 mcount[klass] = mcount.get(klass, 0) + 1
                 seen.add(klass)
-                lst = keep.setdefault(klass, [])
-                lst.append((_size(c), len(c["runs"]), summary, c))
-                lst.sort(key=lambda t: t[:3])
-                del lst[3:]
+                _keep(keep.setdefault(klass, []), (_size(c, ("inputs",)), _size(c, ("outputs",)), summary, c))
         for klass in seen:
             hist_hit[klass] = hist_hit.get(klass, 0) + 1
     return counts, mcount, keep, hist_hit
+
+
+def shrink(case, klass):
+    """Greedy witness minimisation: drop what is irrelevant for `klass` (name steps, the other side's
+    renames, the map step, all runs but one) as long as the same class still fires."""
+    import copy
+
+    def fires(c):
+        return [s for k, s in R.run_case(c)[0] if k == klass]
+
+    best = copy.deepcopy(case)
+    P, Q = best["P"], best["Q"]
+
+    def attempt(mut):
+        nonlocal best
+        c = copy.deepcopy(best)
+        if mut(c) is False:
+            return
+        if fires(c):
+            best = c
+
+    def no_names(c):
+        c["steps"] = [s for s in c["steps"] if s[0] != "name"]
+        c["ncur"] = "a"
+
+    def no_outputs(c):
+        if not Q:
+            return False
+        c["steps"] = [s for s in c["steps"] if s[0] != "outputs"]
+        c["ocur"] = R.ORIG[:Q]
+        if "out" in c:
+            c["out"] = R.ORIG[:Q]
+
+    def no_inputs(c):
+        if c.get("map") or c.get("ctor"):
+            return False
+        c["steps"] = [s for s in c["steps"] if s[0] != "inputs"]
+        c["cur"] = R.ORIG[:P]
+        if "res" in c:
+            c["res"] = R.ORIG[:P]
+
+    def no_map(c):
+        if not c.get("map"):
+            return False
+        c["steps"] = [s for s in c["steps"] if s[0] != "map"]
+        del c["map"]
+
+    for mut in (no_names, no_outputs, no_inputs, no_map):
+        attempt(mut)
+    attempt(lambda c: c.__setitem__("runs", []))
+    if best["runs"]:
+        for r in list(best["runs"]):
+            c = copy.deepcopy(best)
+            c["runs"] = [r]
+            if fires(c):
+                best = c
+                break
+    return best, fires(best)[0]
 
 
 def replay_all(ctx, hists, thorough, procs):
@@ -287,9 +351,8 @@ def replay_all(ctx, hists, thorough, procs):
                 hist_hit[k] = hist_hit.get(k, 0) + v
             for k, v in kp.items():
                 lst = keep.setdefault(k, [])
-                lst += v
-                lst.sort(key=lambda t: t[:3])
-                del lst[3:]
+                for item in v:
+                    _keep(lst, item)
     for P, lst in HISTS.items():
         ctx.traces(len(lst))
         for r in lst:
@@ -303,11 +366,20 @@ def report(ctx, mcount, keep, hist_hit):
     for klass in sorted(mcount):
         ctx.bump("mismatches:" + klass, mcount[klass])
         ctx.bump("histories_with:" + klass, hist_hit.get(klass, 0))
-        for size, _, summary, case in keep[klass][:2]:
-            # re-execute the witness before reporting it
+        # every witness is re-executed (shrink re-runs it) before it is reported
+        shrunk = []
+        for _, _, summary, case in keep[klass]:
             again, _ = R.run_case(case)
             if not any(k == klass for k, _ in again):
                 raise RuntimeError(f"witness of {klass} did not reproduce: {summary}")
+            shrunk.append(shrink(case, klass))
+        shrunk.sort(key=lambda t: (_size(t[0]), len(t[0]["runs"])))
+        done = set()
+        for case, summary in shrunk:
+            key = json.dumps([case["kind"], case["steps"], case["prof"], case["runs"]])
+            if key in done or len(done) >= 2:
+                continue
+            done.add(key)
             ctx.violation(klass, {"case": case, "mismatch": summary},
                           f"{case['kind']}{' mapped' if case.get('map') else ''} P={case['P']} profile={case['prof']} steps={json.dumps(case['steps'])}"
                           f"{' ctor=' + json.dumps(case['ctor']) if case.get('ctor') else ''}: {summary}")
